@@ -1,10 +1,10 @@
 #!/bin/bash
 # usage: keep_r3.sh PROP K "extra test files"   — stage a round-3 sub-agent's output for tools/keep_mutant.py and run it
 P=$1; K=$2; T=$3
-mkdir -p /tmp/mut/${P}_out
+mkdir -p /tmp/mut/${P}_out /tmp/r3keep/$P
+[ -d /tmp/r3_$P/_out ] && cp -r /tmp/r3_$P/_out /tmp/r3keep/$P/
 rm -rf /tmp/mut/$P; ln -s /tmp/r3_$P /tmp/mut/$P
-cp /tmp/r3_$P/_out/m$K/patch.diff /tmp/mut/${P}_out/mutant_$K.diff
-cp /tmp/r3_$P/_out/m$K/demo.py /tmp/mut/${P}_out/demo_$K.py
-cp /tmp/r3_$P/_out/m$K/notes.md /tmp/mut/${P}_out/notes_$K.md
-mkdir -p /tmp/r3keep/$P; cp -r /tmp/r3_$P/_out /tmp/r3keep/$P/ 2>/dev/null
+cp /tmp/r3keep/$P/_out/m$K/patch.diff /tmp/mut/${P}_out/mutant_$K.diff
+cp /tmp/r3keep/$P/_out/m$K/demo.py /tmp/mut/${P}_out/demo_$K.py
+cp /tmp/r3keep/$P/_out/m$K/notes.md /tmp/mut/${P}_out/notes_$K.md
 cd /verif && /venv/bin/python tools/keep_mutant.py $P $K --round r3 --tests "$T"
